@@ -24,6 +24,7 @@ func init() {
 	register(&Rule{ID: "C15.CONFPAT", Min: 1, Doc: "every ignore pattern of the configuration file is compiled on its own", Run: runC15ConfPat})
 	register(&Rule{ID: "C11.FILTER", Min: 2, Doc: "the matcher remembers an object filter on every path and the index handler consults it", Run: runC11Filter})
 	register(&Rule{ID: "C02.SRC", Min: 2, Doc: "clock, random and process-specific values only feed the debug log", Run: runC02Src})
+	register(&Rule{ID: "C01.EXTPANIC", Min: 1, Doc: "the cron parser is only called on text for which it is known not to panic", Run: runC01ExtPanic})
 	register(&Rule{ID: "C01.REPEAT", Min: 3, Doc: "the count of strings.Repeat is never negative", Run: runC01Repeat})
 }
 
@@ -1068,5 +1069,61 @@ func runC02Src(c *Ctx) {
 				c.bad(construct, call.Pos(), "a value that differs from run to run reaches "+bad+": the output is not a function of the inputs")
 			}
 		})
+	}
+}
+
+// ---- C01.EXTPANIC ----
+
+// External parsers that are known to panic on some input must only be called when that input was excluded first.
+// robfig/cron v3.0.1 Parser.Parse slices spec[eq+1:i] with i = strings.Index(spec, " ") when the spec starts with "TZ=" or
+// "CRON_TZ=": without a space i is -1 and the slice expression panics.
+func runC01ExtPanic(c *Ctx) {
+	p := c.P
+	n := 0
+	for _, fn := range p.Funcs {
+		eachInstr(fn, func(_ *ssa.BasicBlock, _ int, in ssa.Instruction) {
+			call, ok := in.(*ssa.Call)
+			if !ok || calleeFullName(&call.Call) != "(github.com/robfig/cron/v3.Parser).Parse" {
+				return
+			}
+			n++
+			construct := FuncName(fn) + "|cron.Parser.Parse"
+			spec := call.Call.Args[1]
+			seen := map[string]bool{}
+			sawSpace := false
+			eachInstr(fn, func(b2 *ssa.BasicBlock, _ int, in2 ssa.Instruction) {
+				c2, ok := in2.(*ssa.Call)
+				if !ok || !(c2.Block() == call.Block() || reachableBlocks(c2.Block().Succs, nil)[call.Block()]) || call.Block().Dominates(c2.Block()) && c2.Block() != call.Block() {
+					return
+				}
+				switch calleeFullName(&c2.Call) {
+				case "strings.HasPrefix":
+					if sameContainer(c2.Call.Args[0], spec) || c2.Call.Args[0] == spec {
+						if s, ok := constString(c2.Call.Args[1]); ok {
+							seen[s] = true
+						}
+					}
+				case "strings.Contains", "strings.Index", "strings.IndexByte", "strings.ContainsRune":
+					if sameContainer(c2.Call.Args[0], spec) || c2.Call.Args[0] == spec {
+						sawSpace = true
+					}
+				}
+			})
+			// the guard must be able to leave before the call: some return is reachable without passing the call
+			guardReturns := false
+			for _, b := range fn.Blocks {
+				if _, ok := b.Instrs[len(b.Instrs)-1].(*ssa.Return); ok && !call.Block().Dominates(b) && b != call.Block() {
+					guardReturns = true
+				}
+			}
+			if seen["TZ="] && seen["CRON_TZ="] && sawSpace && guardReturns {
+				c.ok(construct, call.Pos(), "only called after the time-zone prefixes without a following space were excluded")
+			} else {
+				c.bad(construct, call.Pos(), "cron.Parser.Parse is called with workflow text that may be `TZ=...` / `CRON_TZ=...` without a space: the library panics (slice bounds out of range) and actionlint crashes instead of reporting the schedule")
+			}
+		})
+	}
+	if n == 0 {
+		c.undecided("cron.Parser.Parse|calls", token.NoPos, "no call of the cron parser found")
 	}
 }
